@@ -1,11 +1,10 @@
 SPECIFICATION Spec
 CONSTANTS
-  SubPermitRace = FALSE
+  SubPermitRace = TRUE
   RaceTokenWait = TRUE
   Max = 2
   MaxConnects = 3
   MaxReqs = 2
   MaxAcceptErrs = 1
-INVARIANTS LimitInv ConservationInv StopOrderInv AtMostOneMoreInv Refill
-PROPERTY Prompt
+INVARIANTS AtMostOneMoreInv
 CHECK_DEADLOCK FALSE
